@@ -696,10 +696,7 @@ def g_noise(r, kind, shape, scale):
         return gen.choice(r, [scale, np.float64(scale*2), scale*3])
     shp = {'src': (ns, 1, 1), 'recfreq': (1, nr, nf), 'freq': (1, 1, nf),
            'full': (ns, nr, nf)}[kind]
-    if int(np.prod(shp)) == 1:
-        # emg3d does float(array) on one-element arrays, which NumPy >= 2.4
-        # refuses for ndim > 0: not a storable object, so not generated
-        return float(scale*r.uniform(0.5, 2.0))
+    # (a one-element array is stored by emg3d as a float)
     return scale*r.uniform(0.5, 2.0, shp)
 
 
@@ -789,7 +786,15 @@ def g_survey(r, box=BOX0, nrec=None, for_sim=False, finite_obs=False,
     for k in ('name', 'date', 'info'):
         if r.random() < 0.5:
             kw[k] = gen.choice(r, STRINGS[1:9] + ['2026-09-23', None])
-    sv = emg3d.Survey(src, rec, freqs, data=data, **kw)
+    try:
+        sv = emg3d.Survey(src, rec, freqs, data=data, **kw)
+    except TypeError:
+        # trees without the single-value fix do float(array) on one-element
+        # arrays, which NumPy >= 2.4 refuses for ndim > 0: hand in floats
+        for k in ('noise_floor', 'relative_error'):
+            if isinstance(kw.get(k), np.ndarray) and kw[k].size == 1:
+                kw[k] = float(kw[k].flat[0])
+        sv = emg3d.Survey(src, rec, freqs, data=data, **kw)
     variant = f'{names}/{fk}/{dk}/nf-{nfk}/re-{rek}'
     if nr and r.random() < 0.25:
         sv.standard_deviation = np.abs(r.standard_normal(shape))*1e-14 + 1e-16
